@@ -566,3 +566,291 @@ Proof.
   repeat constructor; cbn [fst snd length map br_bins br_meta br_intervals In]; unfold u64, u32;
     rewrite ?Hm; try Lia.lia; try (intuition discriminate).
 Qed.
+
+(* ==== seventh deepening: query_unmapped over the BYTES, histories mixing it with region queries,
+   and the state read_header leaves -- proofs in NV.Index.ByteUnmappedProofs ==== *)
+From NV Require Import Index.ByteUnmapped Index.ByteUnmappedProofs.
+
+(* reading the hl header bytes from a fresh reader (what the executed sessions do for read_header)
+   yields exactly those bytes and leaves the reader in a state of C02's invariant at flat offset
+   hl, wherever the block boundaries fall: the premise `Rel f st0 o0` of the byte-level theorems
+   holds for the state the sessions start the indexing loop from *)
+Theorem c04_after_header_at_records :
+  forall f, wf f -> forall hl, hl <= total_dlen f ->
+    exists st, after_header f hl = (st, Ok (slice (concat (chunks f)) 0 hl)) /\ Rel f st hl.
+Proof. exact after_header_rel. Qed.
+Print Assumptions c04_after_header_at_records.
+
+(* std's read_exact over the bgzf reader from any state of the invariant: exactly the next n bytes
+   (seek_to_first_record's re-reading of the header is an instance) *)
+Theorem c04_read_exact_at :
+  forall f, wf f -> forall st o n, Rel f st o -> o + n <= total_dlen f ->
+    exists st', read_exact_std true st n = (st', Ok (slice (concat (chunks f)) o n)) /\ Rel f st' (o + n).
+Proof. exact read_exact_std_at. Qed.
+Print Assumptions c04_read_exact_at.
+
+(* Reader::query_unmapped over the bytes, on a reader in ANY state of the invariant, with the
+   index bam::fs::index's loop built from the same bytes: seek to
+   Index::last_first_record_start_position (or to 0 + re-read the header when the index has
+   none), then the plain record reader to the end of the file with the flag filter -- is the
+   format-level unmapped query (fmt_query_unmapped) on the scanned records: the flagged records
+   from the sought record on, and the reader is left at the end of the data *)
+Theorem c04_byte_bam_unmapped :
+  forall f bsz, wf f -> total_csize f <= MAX_COMPRESSED_POSITION ->
+  forall dec L o0 a0, laid f o0 a0 L ->
+    skipn (N.to_nat o0) (concat (chunks f)) = stream (map br_body L) -> o0 <= total_dlen f ->
+  forall ms d nref ixs, fmt_index brec (bctx dec) br_a br_b ms d nref L = Some ixs ->
+  forall kd st o, Rel f st o ->
+    exists st', Rel f st' (total_dlen f) /\
+      byte_bam_unmapped dec bsz f o0 st kd ixs
+      = (st', Ok (map br_body (fmt_query_unmapped brec br_a (fun x => d_unm (dec (br_body x))) kd ixs a0 L))).
+Proof. exact byte_bam_unmapped_spec. Qed.
+Print Assumptions c04_byte_bam_unmapped.
+
+(* THE BYTE-LEVEL THEOREM WITH THE UNMAPPED QUERY.  Same premises as
+   c04_byte_bam_query_equals_scan.  The indexing loop over the bytes succeeds; then for each index
+   kind there is ONE answer U of the unmapped query such that
+     - U holds only records flagged unmapped; it is the flag filter applied to a suffix of the
+       stream's records (file order, nothing twice); and when the records without an alignment
+       context come last (coordinate-sorted file), the unplaced records of U are exactly the
+       unplaced records of the file that are flagged unmapped (unmapped_answer_ok), and
+     - ANY sequence of region queries (reference in the header, bounds in range or missing) and
+       unmapped queries, in any order, on one reader object in any state of the invariant, gives
+       each region query the scan's answer and each unmapped query U. *)
+Theorem c04_byte_bam_region_and_unmapped_queries :
+  forall dec bsz f, wf f -> total_csize f <= MAX_COMPRESSED_POSITION ->
+  forall st0 o0 bodies ms d nref,
+    Rel f st0 o0 -> skipn (N.to_nat o0) (concat (chunks f)) = stream bodies ->
+    Forall rec_ok bodies -> Forall (body_ok dec ms d) bodies ->
+    index_scan (list N) (fun b => dec_ctx (dec b)) 0 bodies = None ->
+    exists st1 L,
+      index_from dec bsz f st0 = (st1, IxOk L) /\ map br_body L = bodies /\
+      Rel f st1 (total_dlen f) /\
+      forall kd, exists U, unmapped_answer_ok dec bodies U /\
+        forall ops st o, Forall (op_ok ms d nref) ops -> Rel f st o ->
+          byte_bam_ops dec bsz query f o0 st kd ms d nref (built dec ms d nref L) ops
+          = map (op_answer dec bodies U) ops.
+Proof. exact byte_bam_index_ops_equals_scan. Qed.
+Print Assumptions c04_byte_bam_region_and_unmapped_queries.
+
+(* the form the correspondence check executes (kind bamu) is the modelled one *)
+Theorem c04_byte_bam_ops_session_fast_eq : forall dec bsz f hl kd ms d nref ops,
+  byte_bam_ops_session dec bsz query_fast f hl kd ms d nref ops
+  = byte_bam_ops_session dec bsz query f hl kd ms d nref ops.
+Proof. exact byte_bam_ops_session_fast_eq. Qed.
+Print Assumptions c04_byte_bam_ops_session_fast_eq.
+
+(* non-vacuity: header of 3 bytes, two placed reads, then an unplaced tail (flagged, NOT flagged,
+   flagged), records cut by block boundaries with an empty block between; unmapped query, region
+   query, unmapped query on the reader that built the index; and a file without any placed read
+   (the seek goes to 0 and the header is read again) *)
+Definition c04_unplaced (flag : N) : list N :=
+  [255;255;255;255; 255;255;255;255; 2; 255; 72;18; 0;0; flag;0; 0;0;0;0; 255;255;255;255;
+   255;255;255;255; 0;0;0;0; 42;0].
+Definition c04_bytes_file3 : file :=
+  [mkFrame 40 ([1;2;3] ++ [38;0;0;0] ++ firstn 10 (c04_placed 99)); mkFrame 28 [];
+   mkFrame 50 (skipn 10 (c04_placed 99) ++ [38;0;0;0] ++ c04_placed 4999 ++ [34;0;0;0] ++ firstn 7 (c04_unplaced 4));
+   mkFrame 60 (skipn 7 (c04_unplaced 4) ++ [34;0;0;0] ++ c04_unplaced 0 ++ [34;0;0;0] ++ c04_unplaced 4);
+   mkFrame 28 []].
+Example c04_byte_bam_unmapped_example :
+  byte_bam_ops_session_x c04_bytes_file3 3 Linear 14 5 1
+    [OpUnmapped; OpRegion (0, (Some 105, Some 200)); OpUnmapped]
+  = (IxOk [mkbrec (c04_placed 99) 3 4456476; mkbrec (c04_placed 4999) 4456476 4456518;
+           mkbrec (c04_unplaced 4) 4456518 7733275; mkbrec (c04_unplaced 0) 7733275 7733313;
+           mkbrec (c04_unplaced 4) 7733313 11665408],
+     [BRead (Ok [c04_unplaced 4; c04_unplaced 4]); BRead (Ok [c04_placed 99]);
+      BRead (Ok [c04_unplaced 4; c04_unplaced 4])]) /\
+  byte_bam_ops_session_x [mkFrame 40 ([1;2;3] ++ [34;0;0;0] ++ c04_unplaced 4)] 3 Binned 14 5 1
+    [OpUnmapped; OpUnmapped]
+  = (IxOk [mkbrec (c04_unplaced 4) 3 2621440],
+     [BRead (Ok [c04_unplaced 4]); BRead (Ok [c04_unplaced 4])]).
+Proof. split; vm_compute; reflexivity. Qed.
+
+(* ==== END TO END over a file noodles wrote (proof: NV.Index.ByteWrittenProofs).  The stream is
+   C05's model of bam::io::Writer (C06's header block + one encoded record each) over a header h
+   and records rs that satisfy the Rust type invariants (wf_header, rec_ok: C06's / C05's), cut
+   into BGZF blocks in ANY way (frame table f with concat (chunks f) = the stream).  Premises on the
+   WRITTEN RECORDS only: a read with a reference id has a POS and its span lies within the index
+   geometry (rec_placed_ok), reference ids of placed reads never go down (index_scan = None).  Then
+     - the header reader returns h and leaves exactly the records (C06), the record part is 4 size
+       bytes + body per record, and the lazy accessors on a written body yield the record's own
+       reference id / POS / CIGAR / flag (C05), so the scan predicate on the bytes is the scan
+       predicate on the written records;
+     - the executed session -- read the header, bam::fs::index's loop over the bytes, then any
+       sequence of region queries and unmapped queries on the same reader -- succeeds and answers
+       every region query with the bodies of exactly the written records a scan keeps, and every
+       unmapped query with U (only flagged records, a suffix of the file filtered by the flag,
+       all unplaced flagged records when the unplaced records come last).
+   No `Rel f st0 o0` premise is left: it is discharged by c04_after_header_at_records. ==== *)
+From NV Require Bam.Record Bam.Encode Bam.File Bam.CodecProofs Bam.FileProofs Sam.Header Sam.HeaderProofs Sam.BamHeader.
+From NV Require Import Index.ByteWrittenProofs.
+
+Theorem c04_written_bam_queries_equal_scan :
+  forall h rs bytes,
+    NV.Sam.HeaderProofs.wf_header h -> Forall NV.Bam.FileProofs.rec_ok rs ->
+    NV.Bam.File.write_file h rs = NV.Bam.Record.Ok bytes ->
+  forall f bsz, wf f -> total_csize f <= MAX_COMPRESSED_POSITION -> concat (chunks f) = bytes ->
+  forall ms d, Forall (rec_placed_ok ms d) rs -> index_scan NV.Bam.Record.record rec_ctx 0 rs = None ->
+    let nref := length (NV.Sam.Header.h_sq h) in
+    exists hb bodies L,
+      NV.Sam.BamHeader.write_bam_header h = Some hb /\ bytes = hb ++ stream bodies /\
+      NV.Sam.BamHeader.read_bam_header bytes = NV.Bam.Record.Ok (h, stream bodies) /\
+      Forall2 (fun r b => NV.Bam.Encode.encode_body (NV.Bam.Record.lenN (NV.Sam.Header.h_sq h)) r = NV.Bam.Record.Ok b) rs bodies /\
+      Forall2 (fun r b => dec_bam (lazy_dec b) 0 0 = rec_bam r /\
+                          forall k iv, body_scan_hit lazy_dec k iv b = bam_scan_hit k iv (rec_bam r)) rs bodies /\
+      map br_body L = bodies /\
+      forall kd, exists U, unmapped_answer_ok lazy_dec bodies U /\
+        forall ops, Forall (op_ok ms d nref) ops ->
+          byte_bam_ops_session lazy_dec bsz query f (len hb) kd ms d nref ops
+          = (IxOk L, map (op_answer lazy_dec bodies U) ops).
+Proof. exact written_bam_queries_equal_scan. Qed.
+Print Assumptions c04_written_bam_queries_equal_scan.
+
+(* non-vacuity of its premises: one reference, two placed reads (POS 100 and 5000, 10M), one
+   unplaced read flagged unmapped; the writer model accepts them *)
+Definition c04_w_header : NV.Sam.Header.header :=
+  NV.Sam.Header.mkHeader None [NV.Sam.Header.mkSq [114; 48] 536870911 []] [] [] [].
+Definition c04_w_rec (pos : N) : NV.Bam.Record.record :=
+  NV.Bam.Record.mkRecord (Some [49]) 0 (Some 0) (Some pos) (Some 60) [(0, 10)] None None Z0
+    [65;67;71;84;65;67;71;84;65;67] [30;30;30;30;30;30;30;30;30;30] [].
+Definition c04_w_unp : NV.Bam.Record.record :=
+  NV.Bam.Record.mkRecord (Some [50]) 4 None None None [] None None Z0 [65] [30] [].
+Example c04_written_example :
+  let rs := [c04_w_rec 100; c04_w_rec 5000; c04_w_unp] in
+  NV.Sam.HeaderProofs.wf_header c04_w_header /\ Forall NV.Bam.FileProofs.rec_ok rs /\
+  Forall (rec_placed_ok 14 5) rs /\ index_scan NV.Bam.Record.record rec_ctx 0 rs = None /\
+  exists bytes, NV.Bam.File.write_file c04_w_header rs = NV.Bam.Record.Ok bytes.
+Proof.
+  cbv zeta. split; [|split; [|split; [|split]]].
+  - unfold NV.Sam.HeaderProofs.wf_header, c04_w_header.
+    cbn [NV.Sam.Header.h_hd NV.Sam.Header.h_sq NV.Sam.Header.h_rg NV.Sam.Header.h_pg NV.Sam.Header.h_co map].
+    split; [exact I|]. split.
+    + constructor; [|constructor]. unfold NV.Sam.HeaderProofs.wf_sq, NV.Sam.HeaderProofs.others_ok.
+      cbn. split; [Lia.lia|]. repeat constructor; try (intros []).
+    + split; [apply NV.Sam.HeaderProofs.nodup1|]. repeat split; constructor.
+  - assert (Hw : forall p, 1 <= p -> NV.Bam.FileProofs.rec_ok (c04_w_rec p)).
+    { intros p Hp. unfold NV.Bam.FileProofs.rec_ok, NV.Bam.CodecProofs.wf, c04_w_rec.
+      cbn [NV.Bam.Record.r_flags NV.Bam.Record.r_mapq NV.Bam.Record.r_pos NV.Bam.Record.r_mpos
+           NV.Bam.Record.r_tlen NV.Bam.Record.r_cigar NV.Bam.Record.r_data map].
+      split; [|split; constructor].
+      split; [Lia.lia|]. split; [intros q E; injection E as E; Lia.lia|].
+      split; [intros q E; injection E as E; Lia.lia|]. split; [intros q E; discriminate|].
+      split; [Lia.lia|]. repeat constructor; unfold NV.Bam.CodecProofs.op_ok; cbn [fst]; Lia.lia. }
+    constructor; [apply Hw; Lia.lia|]. constructor; [apply Hw; Lia.lia|]. constructor; [|constructor].
+    unfold NV.Bam.FileProofs.rec_ok, NV.Bam.CodecProofs.wf, c04_w_unp.
+    cbn [NV.Bam.Record.r_flags NV.Bam.Record.r_mapq NV.Bam.Record.r_pos NV.Bam.Record.r_mpos
+         NV.Bam.Record.r_tlen NV.Bam.Record.r_cigar NV.Bam.Record.r_data map].
+    split; [|split; constructor].
+    split; [Lia.lia|]. split; [intros q E; discriminate|]. split; [intros q E; discriminate|].
+    split; [intros q E; discriminate|]. split; [Lia.lia|constructor].
+  - assert (Hp : forall p, (p =? 100) || (p =? 5000) = true -> rec_placed_ok 14 5 (c04_w_rec p)).
+    { intros p Hp. split; [intros _; discriminate|]. intros k s e H.
+      destruct (p =? 100) eqn:E1; [apply N.eqb_eq in E1; subst p|
+        destruct (p =? 5000) eqn:E2; [apply N.eqb_eq in E2; subst p|discriminate]];
+      vm_compute in H; injection H as ? ? ?; subst; split; vm_compute; discriminate. }
+    constructor; [apply Hp; reflexivity|]. constructor; [apply Hp; reflexivity|].
+    constructor; [|constructor]. split; [intros H; exfalso; apply H; reflexivity|].
+    intros k s e H. vm_compute in H. discriminate.
+  - vm_compute. reflexivity.
+  - eexists. vm_compute. reflexivity.
+Qed.
+
+(* ==== tabix (.tbi) via file at format level (proof: NV.Index.TabixViaFileProofs).  The tabix
+   index file is the byte layout NV.Index.CsiLayout w_tbi / read_tbi (C17's, tied to noodles-tabix
+   there): header (format, columns, meta, skip, names), BAI-style reference sequences with the
+   metadata pseudo-bins, optional unplaced count -- all universally quantified. ==== *)
+From NV Require Import Index.TabixViaFileProofs.
+
+(* any format indexed with the linear (14, 5) geometry: Reader::query with the index read back from
+   its .tbi file = Reader::query with the in-memory index *)
+Theorem c04_fmt_query_via_tbi_file :
+  forall (A : Type) ctx oa ob hit nref (l : list A) ixs k iv,
+    fmt_index A ctx oa ob 14 5 nref l = Some ixs ->
+    forall hdr meta unplaced,
+      let i := built_tbi (placed A ctx oa ob l) hdr meta (length ixs) unplaced in
+      tbi_ok i ->
+      exists i', w_tbi i = WOk (w_tbi_bytes i) /\ read_tbi (w_tbi_bytes i) = Some i' /\
+        fmt_query A oa hit Linear 14 5 (map bref_refidx (ti_refs i')) l k iv
+        = fmt_query A oa hit Linear 14 5 ixs l k iv.
+Proof. exact fmt_query_via_tbi_file. Qed.
+Print Assumptions c04_fmt_query_via_tbi_file.
+
+(* bgzipped VCF + tabix with the reader's name handling (ids by first appearance, names resolved
+   against the index): the query through the .tbi file = the in-memory query, so
+   c04_tabix_contig_without_records and the query = scan theorems transfer *)
+Theorem c04_tabix_query_via_tbi_file :
+  forall v45 l ixs c iv,
+    tabix_index v45 l = Some ixs ->
+    forall hdr meta unplaced,
+      let i := built_tbi (placed vcf_rec (vcf_ctx false v45) v_a v_b (snd (tabix_renumber l))) hdr meta
+                 (length ixs) unplaced in
+      tbi_ok i ->
+      exists i', w_tbi i = WOk (w_tbi_bytes i) /\ read_tbi (w_tbi_bytes i) = Some i' /\
+        tabix_query v45 (map bref_refidx (ti_refs i')) l c iv = tabix_query v45 ixs l c iv.
+Proof. exact tabix_query_via_tbi_file. Qed.
+Print Assumptions c04_tabix_query_via_tbi_file.
+
+(* VCF query = scan (the specification's span) through the .tbi file, on every file where noodles'
+   span agrees with the specification's (all files before 4.5; 4.5 without INFO SVLEN values) *)
+Theorem c04_vcf_query_via_tbi_file_equals_scan :
+  forall v45 nref l ixs k iv,
+    ordered_f vcf_rec v_a v_b 0 l ->
+    spans_ok 14 5 (placed vcf_rec (vcf_ctx false v45) v_a v_b l) ->
+    vcf_index false v45 14 5 nref l = Some ixs -> (N.to_nat k < length ixs)%nat ->
+    region_ok 14 5 iv -> Forall (span_agrees v45) l ->
+    forall hdr meta unplaced,
+      let i := built_tbi (placed vcf_rec (vcf_ctx false v45) v_a v_b l) hdr meta (length ixs) unplaced in
+      tbi_ok i ->
+      exists i', w_tbi i = WOk (w_tbi_bytes i) /\ read_tbi (w_tbi_bytes i) = Some i' /\
+        vcf_query v45 Linear 14 5 (map bref_refidx (ti_refs i')) l k iv = QOk (vcf_scan v45 l k iv).
+Proof. exact vcf_query_via_tbi_file_equals_scan. Qed.
+Print Assumptions c04_vcf_query_via_tbi_file_equals_scan.
+
+(* non-vacuity: two variants on contig 0 (POS 100, REF of 3 bases; POS 70000 with END 70500), a
+   VCF tabix header with one name; tbi_ok holds and the query through the written-and-read .tbi
+   returns the second record for 70400-70450 *)
+Definition c04_tbi_file : list vcf_rec :=
+  [mkvcf 0 (Build_span_in 100 3 None None None) [AltSeq] 1000 2000;
+   mkvcf 0 (Build_span_in 70000 1 (Some (Some (VInteger (Zpos 70500)))) None None) [AltDel] 2000 3000].
+Example c04_tbi_example :
+  let hdr := mkhdr FVcf 0 1 None 35 0 [[99; 49]] in
+  let i := built_tbi (placed vcf_rec (vcf_ctx false false) v_a v_b c04_tbi_file) hdr (fun _ => None) 1 (Some 0) in
+  tbi_ok i /\
+  (exists i', read_tbi (w_tbi_bytes i) = Some i' /\
+     vcf_query false Linear 14 5 (map bref_refidx (ti_refs i')) c04_tbi_file 0 (Some 70400, Some 70450)
+     = QOk [mkvcf 0 (Build_span_in 70000 1 (Some (Some (VInteger (Zpos 70500)))) None None) [AltDel] 2000 3000]).
+Proof.
+  cbv zeta. split; [|eexists; split; vm_compute; reflexivity].
+  unfold tbi_ok, built_tbi. cbn [ti_header ti_refs ti_unplaced].
+  split; [|split; [vm_compute; reflexivity|split; [|unfold u64; Lia.lia]]].
+  - unfold header_ok. split; [vm_compute; reflexivity|]. split; [vm_compute; reflexivity|].
+    cbn [h_names]. constructor; [intros []|constructor].
+  - set (r := bi_refs _). vm_compute in r. subst r.
+    assert (Hm : bai_metadata_id = 37450) by (vm_compute; reflexivity).
+    repeat constructor; cbn [fst snd length map br_bins br_meta br_intervals In]; unfold u64, u32;
+      rewrite ?Hm; try Lia.lia; try (intuition discriminate).
+Qed.
+
+(* region AND unmapped queries over the BAM bytes with the index written to a BAI file and read
+   back: the BAI index reads back equal, so last_first_record_start_position and with it the
+   unmapped answer U are unchanged (through a CSI FILE the stored loffsets differ and the seek
+   position of query_unmapped may move: exercised by kind bamu, not claimed) *)
+From NV Require Import Index.ByteUnmappedViaFileProofs.
+Theorem c04_byte_bam_ops_via_bai_file :
+  forall dec bsz f, wf f -> total_csize f <= MAX_COMPRESSED_POSITION ->
+  forall st0 o0 bodies ms d nref,
+    Rel f st0 o0 -> skipn (N.to_nat o0) (concat (chunks f)) = stream bodies ->
+    Forall rec_ok bodies -> Forall (body_ok dec ms d) bodies ->
+    index_scan (list N) (fun b => dec_ctx (dec b)) 0 bodies = None ->
+    exists st1 L U,
+      index_from dec bsz f st0 = (st1, IxOk L) /\ map br_body L = bodies /\
+      unmapped_answer_ok dec bodies U /\
+      forall meta unplaced,
+        let i := built_bai ms d (placed brec (bctx dec) br_a br_b L) meta (length (built dec ms d nref L)) unplaced in
+        bai_ok i ->
+        exists i', read_bai (w_bai i) = Some i' /\
+          forall ops st o, Forall (op_ok ms d nref) ops -> Rel f st o ->
+            byte_bam_ops dec bsz query f o0 st Linear ms d nref (map bref_refidx (bi_refs i')) ops
+            = map (op_answer dec bodies U) ops.
+Proof. exact byte_bam_ops_via_bai_file. Qed.
+Print Assumptions c04_byte_bam_ops_via_bai_file.
